@@ -360,6 +360,31 @@ class Check(Property):
     def oracle(self, c):
         import pint
         v = []
+        if c["kind"] == "pkey":
+            # a prefix of the bundled files, as the independent reader sees its line: name, value, symbol ("_" = none), aliases
+            P = regs.pools()
+            u = regs.ureg("fraction")
+            rec = next((p for k_, p in P.proj.prefix_keys if k_ == c["s"]), None)
+            if rec is None:
+                return v
+            try:
+                p = u._prefixes[c["s"]]
+                got = (p.name, Fraction(p.value), p.symbol, sorted(p.aliases))
+            except Exception as exc:  # noqa: BLE001
+                return [f"C10 prefix {c['s']!r}: lookup raised {type(exc).__name__}"]
+            want = (rec["name"], Fraction(rec["value"]) if not isinstance(rec["value"], regs.D.Irr) else got[1],
+                    rec["symbol"] or rec["name"], sorted(rec["aliases"]))
+            if got != want:
+                v.append(f"C10 prefix {c['s']!r}: the registry holds (name, value, symbol, aliases) = {got}, its definition line says {want}")
+            if rec["symbol"] is None and rec["name"]:
+                # no symbol: the short form of a prefixed unit uses the prefix name
+                try:
+                    sym = u.get_symbol(rec["name"] + "meter")
+                    if sym != rec["name"] + "m":
+                        v.append(f"C10 prefix {rec['name']!r} has no symbol but get_symbol({rec['name'] + 'meter'!r}) = {sym!r}")
+                except Exception:  # noqa: BLE001
+                    pass
+            return v
         if c["kind"] == "gen":
             logging.disable(logging.CRITICAL)
             try:
